@@ -304,6 +304,22 @@ static int held_page_intact(const vbi_page *pg, int h)
 	return 1;
 }
 
+/* Single thread, no call in progress: the caption mutex must be free.  If it is not (left
+ * locked by an earlier call, or its memory overwritten) the next vbi_decode or
+ * vbi_fetch_cc_page would block forever; report that instead of stalling the worker, and
+ * end the case. */
+static int case_aborted;
+static int caption_mutex_stuck(const char *next_call)
+{
+	int e = pthread_mutex_trylock(&g_vbi->cc.mutex);
+	if (e == 0) { pthread_mutex_unlock(&g_vbi->cc.mutex); return 0; }
+	if (!deadlock_reported++)
+		vf_fail("deadlock:caption-mutex-left-locked",
+			"no library call is in progress but pthread_mutex_trylock(&vbi->cc.mutex) = %d (%s); %s would never return", e, strerror(e), next_call);
+	case_aborted = 1;
+	return 1;
+}
+
 /* ---------------- individual read-side calls ---------------- */
 
 static void do_fetch_vt(int pgno, int subno, int level, int rows, int nav, int heavy, int may_hold)
@@ -345,7 +361,8 @@ static void do_fetch_cc(int pgno, int may_hold)
 		}
 		if (e == 0) pthread_mutex_unlock(&g_vbi->cc.mutex);
 		cnt[C_NESTED_FETCH_CC]++;
-	}
+	} else if (caption_mutex_stuck("vbi_fetch_cc_page"))
+		return;
 	vf_phase("vbi_fetch_cc_page");
 	if (!vbi_fetch_cc_page(g_vbi, pg, pgno, (int)vf_below(&xr, 2))) return;
 	cnt[C_FETCH_CC_OK]++; api_ok |= 1u << 1;
@@ -616,6 +633,7 @@ static void exec_op(const struct op *o)
 		if (!sl) return;
 		if (o->n) memcpy(sl, pool + o->first, (size_t)o->n * sizeof *sl);
 		cnt[C_FRAMES]++;
+		if (caption_mutex_stuck("vbi_decode")) { free(sl); return; }
 		vf_phase("vbi_decode");
 		vbi_decode(g_vbi, sl, o->n, o->t);
 		free(sl);
@@ -643,7 +661,7 @@ static void exec_op(const struct op *o)
 
 static void exec_reset_state(void)
 {
-	in_handler = 0; ev_seen = 0; api_ok = 0; fn_seen = 0; n_seen = 0; deadlock_reported = 0;
+	in_handler = 0; ev_seen = 0; api_ok = 0; fn_seen = 0; n_seen = 0; deadlock_reported = 0; case_aborted = 0;
 	memset(held_ok, 0, sizeof held_ok);
 	memset(&tmp_pg, 0, sizeof tmp_pg);
 }
